@@ -59,8 +59,8 @@ PROPS = {
               "writes are retried (W3).",
               "file content after a mid-write fault and that a later retry succeeds (runtime fault "
               "sequences); ftruncate faults are outside the property's quantifier."),
-    "C04": _p(["U1", "U2", "U3", "U4", "U5", "S1", "S2", "S4", "G4", "I1", "P2", "U6"],
-              "the recorded number of inserted lines counts an unterminated last line (U6); the undo group after a command line is closed on the buffer that is current afterwards (P2); no splice of the line table without a dominating log entry carrying the same "
+    "C04": _p(["U1", "U2", "U3", "U4", "U5", "S1", "S2", "S4", "G4", "I1", "P2", "U6", "U7"],
+              "every field, local and return value that receives the command counter lbuf_modified advances is as wide as the counter, so two commands never share a step number (U7); the recorded number of inserted lines counts an unterminated last line (U6); the undo group after a command line is closed on the buffer that is current afterwards (P2); no splice of the line table without a dominating log entry carrying the same "
               "position/count/text (U1,U2); undo and redo replay dual arguments of what lbuf_opt "
               "recorded, loop over exactly one sequence number, move the cursor the right way and "
               "fail before any splice at the ends of history (U3); a new edit cuts the redo branch "
